@@ -264,6 +264,54 @@ def run_config(c, max_leaves_per_state=3000000, deadline=None):
     return analyse(c, rows)
 
 
+def witness_paths(c, column, top=3):
+    """For an invariance violation: the heaviest single executions (start state, choice script, probability) that end in the
+    witness column - each is one exactly repeatable run of the real sampler under the simulated generator."""
+    cx = context(c)
+    lp = cx["logpi"]
+    pi = np.exp(lp - lp.max())
+    pi /= pi.sum()
+    out = []
+    from phyclone.tree import FSCRPDistribution, TreeJointDistribution
+
+    for si in range(len(cx["trees"])):
+        best = None
+
+        def leaf(g, si=si):
+            bridge.clear_caches()
+            td = TreeJointDistribution(FSCRPDistribution(c["alpha"]))
+            f = make_operation(c, g, td, cx["data"])
+            try:
+                return cx["index"].get(bridge.canon_tree(f(cx["trees"][si].copy())))
+            except Exception:
+                return None
+
+        try:
+            for res, p, script in explore(leaf, max_leaves=200000):
+                if res == column and (best is None or p > best[0]):
+                    best = (p, script)
+        except ExploreBudget:
+            pass
+        if best is not None:
+            out.append({"start": models.canon_str(cx["canons"][si]), "start_index": si, "script": best[1], "probability": best[0],
+                        "pi_start_times_p": float(pi[si] * best[0])})
+    out.sort(key=lambda d: -d["pi_start_times_p"])
+    return out[:top]
+
+
+def replay_path(c, start_index, script):
+    """Re-execute one recorded path; returns (end state string, probability)."""
+    from phyclone.tree import FSCRPDistribution, TreeJointDistribution
+
+    cx = context(c)
+    g = SimGenerator(mode="choose", script=script)
+    bridge.clear_caches()
+    td = TreeJointDistribution(FSCRPDistribution(c["alpha"]))
+    f = make_operation(c, g, td, cx["data"])
+    t = f(cx["trees"][start_index].copy())
+    return models.canon_str(bridge.canon_tree(t)), math.exp(g.log_prob)
+
+
 def minimise(c, key, budget_s=120):
     """Greedy descent on the configuration while the same violation class persists."""
     import time
